@@ -214,12 +214,13 @@ pub mod sched {
         pub empty_pops: usize,
         pub bad_empty: bool,
         pub bad_refuse: bool,
+        pub bad_evict: bool,
     }
 
     pub static mut BOOK: Book = Book {
         next_val: 1, pushed_ok: 0, refused: [false; MAXV], popped: [0; MAXV], npop: 0, evicted: [0; MAXV], nev: 0,
         inner_budget: 0, in_inner: 2, inner_ran_mid_op: false, outer_in_flight: 2, empty_pops: 0, bad_empty: false,
-        bad_refuse: false,
+        bad_refuse: false, bad_evict: false,
     };
 
     pub fn model_len(b: &Book) -> usize {
@@ -232,6 +233,21 @@ pub mod sched {
             let v = b.next_val;
             b.next_val += 1;
             let len_at_start = model_len(b);
+            // the oldest element at the start of the call: values leave in push order, so it is the
+            // (popped + evicted + 1)-th value that was not refused
+            let gone_at_start = b.npop + b.nev;
+            let mut oldest_at_start = 0u64;
+            let mut seen_ok = 0;
+            let mut w = 1;
+            while w < MAXV {
+                if (w as u64) < v && !b.refused[w] {
+                    if seen_ok == gone_at_start && oldest_at_start == 0 {
+                        oldest_at_start = w as u64;
+                    }
+                    seen_ok += 1;
+                }
+                w += 1;
+            }
             match q.do_push(v) {
                 PushR::Ok => b.pushed_ok += 1,
                 PushR::Full => {
@@ -244,6 +260,16 @@ pub mod sched {
                     }
                 }
                 PushR::Evicted(e) => {
+                    // an eviction is legitimate only if the queue was full at the start of the call and
+                    // nothing was popped before the push took effect: while a push is in flight the other
+                    // side can only pop, and after a pop the queue is no longer full.  The evicted value
+                    // is then the oldest one at the start.
+                    // (the identity is only checked when the push is the preempted operation: when it runs
+                    // inside a pop that is in flight, that pop may already have taken the oldest element
+                    // without being recorded yet)
+                    if len_at_start < Q::CAP || (b.in_inner != 1 && e != oldest_at_start) {
+                        b.bad_evict = true;
+                    }
                     b.pushed_ok += 1;
                     b.evicted[b.nev] = e;
                     b.nev += 1;
@@ -337,6 +363,7 @@ pub mod sched {
                 assert!(b.popped[b.npop - 1] < rest[0], "c03: consumer overtook the queue content");
             }
             assert!(!b.bad_refuse, "c03: push refused although the queue was never full during the call");
+            assert!(!b.bad_evict, "c03: push evicted an element although the queue was not full, or not the oldest one");
             assert!(!b.bad_empty, "c03: pop returned None although the queue was never empty during the call");
         }
     }
